@@ -48,10 +48,20 @@ class World:
         for n in ORDER:
             if n in self.t and n not in self.retained:
                 ev.append(("retain", n))
+        # the caller hands a retained interior gradient back in as the upstream gradient of a node built on top of that interior
+        # node (per-task gradients at a shared representation): the seed is whatever that .grad holds at the time of the call
+        for src, roots in (("h", ("y3", "z2")), ("y1", ("z", "z2"))):
+            if src in self.t and self._has_grad(src):
+                for n in roots:
+                    if n in self.t: ev.append(("bwfrom", n, src))
         ev += [("zero", "p"), ("zero", "q"), ("zero", "module"), ("zero", "optimizer")]
         if all(a is None or np.all(np.isfinite(a)) for a in self.acc.values()):
             ev.append(("step",))      # an optimizer step reads gradients; it is not a reset and contributes nothing
         return ev
+
+    def _has_grad(self, n):
+        with harness.quiet():
+            return self.t[n].grad is not None
 
     def apply(self, e, check=True):
         with harness.quiet():
@@ -90,6 +100,20 @@ class World:
                 if np.any(d != 0):
                     touched.add(leaf)
                     self.acc[leaf] = (self.acc[leaf] if self.acc[leaf] is not None else np.zeros(2)) + GS[gi] * d
+        elif e[0] == "bwfrom":
+            _, n, src = e
+            g = self.t[src].grad
+            gval = np.array(np.asarray(g.data), dtype=np.float64, copy=True)
+            try:
+                self.t[n].backward(g)
+            except Exception as ex:
+                v("backward-raised", f"{e}: {type(ex).__name__}: {ex}")
+                return bad
+            _, dp, dq = self.dual[n]
+            for leaf, d in (("p", dp), ("q", dq)):
+                if np.any(d != 0):
+                    touched.add(leaf)
+                    self.acc[leaf] = (self.acc[leaf] if self.acc[leaf] is not None else np.zeros(2)) + gval * d
         elif e[0] == "retain":
             self.t[e[1]].retain_grad(); self.retained.add(e[1])
         elif e[0] == "zero":
@@ -157,7 +181,7 @@ def run(tier, seed):
            "pruned_violating_transitions": res.pruned,
            "rule": f"all histories up to depth {depth} over: build y1=p*q, h=p*c, y3=h*h, z=y1*c, z2=y1+y3, w=q*q on shared Parameters "
                    "p,q of one Module/optimizer; backward(root, g) for every existing node AND leaf as root, g in {(1,1),(0.5,-2)}, "
-                   "plain or under retain_grads; retain_grad(node); p.zero_(), q.zero_(), module.zero_grad(), optimizer.zero_grad(); optimizer.step() of an SGD(lr=0, "
+                   "plain or under retain_grads; backward(node, g = the .grad currently held by a retained interior node below it); retain_grad(node); p.zero_(), q.zero_(), module.zero_grad(), optimizer.zero_grad(); optimizer.step() of an SGD(lr=0, "
                    "weight decay, maximize) - reads gradients, must leave them alone. "
                    "After every event: .grad of p and q == ledger (sum of forward-mode contributions since last reset), unreachable "
                    "leaves byte-identical, every caller-owned g byte-identical"}
